@@ -117,29 +117,28 @@ def run(prog: Program, col: Collector, tier: str, refs: Optional[Refs] = None, c
 
     # ---------------------------------------------------------------- R03.2
     col.rule("R03.2", "hit / miss / insert protocol of Memoize", floor=4)
-    gets = [n for n in walk_no_nested(mi.node) if isinstance(n, ast.Call) and isinstance(n.func, ast.Attribute) and n.func.attr == "get" and n.func.value in cache_accesses]
+    # path-sensitive find-or-add verification (funsorlint/protocol.py): every entry->return path executed symbolically
+    from ..protocol import FindOrAdd
+    cache_set = set(map(id, cache_accesses))
+    fa = FindOrAdd(mi, lambda e: id(e) in cache_set, "self.cache")
+    for fd in fa.run():
+        col.add(fd.status, f"{mi.fq}::{fd.role}", fd.detail, mi.loc(fd.node) if fd.node is not None else mi.loc())
+    col.cur.analysed["paths"] = {"paths": fa.n_paths, "pruned_infeasible": fa.n_pruned, "hit": fa.n_hit, "miss": fa.n_miss}
+    if not any(x.status == "violation" for x in fa.findings):
+        col.check(fa.n_hit > 0, f"{mi.fq}::hit path exists", "some path returns the cached value", "no path returns a cached value: nothing is memoized", mi.loc())
+        col.check(fa.n_miss > 0, f"{mi.fq}::miss path exists", "some path computes and stores", "no path stores a computed value", mi.loc())
+    # what is computed on a miss: the base interpretation applied to (cls, *args)
     stores = [n for n in walk_no_nested(mi.node) if isinstance(n, ast.Assign) and any(isinstance(t, ast.Subscript) and t.value in cache_accesses for t in n.targets)]
-    tests = [n for n in walk_no_nested(mi.node) if isinstance(n, ast.If)]
-    valname = None
-    for n in walk_no_nested(mi.node):
-        if isinstance(n, ast.Assign) and isinstance(n.value, ast.Call) and n.value in gets and isinstance(n.targets[0], ast.Name):
-            valname = n.targets[0].id
-    ok_test = bool(tests) and valname is not None and norm(tests[0].test) == f"{valname} is None"
-    col.check(ok_test, f"{mi.fq}::miss test", "miss is `value is None` on the looked-up value",
-              "the miss test is not `<looked-up value> is None` (a falsy but legitimate result such as Number(0) would be recomputed or a stale one returned)", mi.loc())
-    ok_store = len(stores) == 1 and bool(tests) and stores[0] in tests[0].body
-    base_call = None
-    if stores:
-        v = stores[0].value
-        if isinstance(v, ast.Call) and isinstance(v.func, ast.Attribute) and v.func.attr == "interpret" and "base_interpretation" in norm(v.func.value):
-            base_call = v
-    args_ok = base_call is not None and len(base_call.args) == 2 and norm(base_call.args[0]) == clsn and isinstance(base_call.args[1], ast.Starred) and norm(base_call.args[1].value) == argv
-    col.check(ok_store and args_ok, f"{mi.fq}::compute and insert on miss", "on a miss the base interpretation is applied to (cls, *args) and the result is stored under the key",
-              "on a miss the value stored is not base_interpretation.interpret(cls, *args) (or it is stored outside the miss branch)", mi.loc())
-    rets = [n for n in walk_no_nested(mi.node) if isinstance(n, ast.Return)]
-    stored_names = {t.id for s in stores for t in s.targets if isinstance(t, ast.Name)}
-    col.check(len(rets) == 1 and isinstance(rets[0].value, ast.Name) and rets[0].value.id == valname and (valname in stored_names or not stores),
-              f"{mi.fq}::returns cached value", "the value returned is the cached one", "Memoize.interpret returns something other than the cached/inserted value", mi.loc())
+    for st in stores:
+        v = st.value
+        if isinstance(v, ast.Name):
+            defs = [n for n in walk_no_nested(mi.node) if isinstance(n, ast.Assign) and n is not st and any(isinstance(t, ast.Name) and t.id == v.id for t in n.targets)
+                    and isinstance(n.value, ast.Call) and isinstance(n.value.func, ast.Attribute) and n.value.func.attr == "interpret"]
+            v = defs[-1].value if defs else v
+        base_call = v if isinstance(v, ast.Call) and isinstance(v.func, ast.Attribute) and v.func.attr == "interpret" and "base_interpretation" in norm(v.func.value) else None
+        args_ok = base_call is not None and len(base_call.args) == 2 and norm(base_call.args[0]) == clsn and isinstance(base_call.args[1], ast.Starred) and norm(base_call.args[1].value) == argv
+        col.check(args_ok, f"{mi.fq}::computed on miss", "on a miss the base interpretation is applied to (cls, *args)",
+                  f"the value stored on a miss is `{norm(st.value)}`, not base_interpretation.interpret(cls, *args)", mi.loc(st))
     mt = prog.funcs.get("funsor.interpretations::Memoize.is_total")
     ok = mt is not None and any(isinstance(n, ast.Return) and norm(n.value) == f"{mt.positional[0]}.base_interpretation.is_total" for n in walk_no_nested(mt.node))
     col.check(ok, "funsor.interpretations::Memoize.is_total", "totality is the base interpretation's (so None can only mean 'not cached' for total bases)",
